@@ -103,6 +103,13 @@ def cases(tier, seed):
                     add("ps.rowonly_operator", dict(perm=list(perm), dims=d, inv=inv, seed=seed), "permutation_operator/dense")
                     add("ps.rowonly_operator", dict(perm=list(perm), dims=d, inv=inv, seed=seed, sparse=True), "permutation_operator/sparse")
                     add("permop.index", dict(perm=list(perm), inv=inv, dims=[d[0]] * n, scalar=True), "permutation_operator/scalar")
+    for perm in ([1, 0], [1, 2, 0], [2, 0, 1]):
+        n = len(perm)
+        for ro in (False, True):
+            for ent in ("complex", "arange"):
+                add("ps.index", dict(kind="matrix", perm=perm, row_only=ro, inv=False, dimform="list", rdims=[2, 3, 2][:n], cdims=[2, 3, 2][:n], entries=ent, sparse=True), "permute_systems/matrix/sparse-%s" % ("complex" if ent == "complex" else "int"))
+                add("ps.index", dict(kind="matrix", perm=perm, row_only=ro, inv=True, dimform="2row", rdims=[2, 3, 2][:n], cdims=[3, 2, 2][:n], entries=ent, sparse=True), "permute_systems/matrix/sparse-%s" % ("complex" if ent == "complex" else "int"))
+    add("frame.args", dict(fn="swap", sys=[1, 3], rdims=[2, 3, 2], cdims=[3, 2, 2], sys_array=False), "frame/swap")
     for perm in itertools.permutations(range(2)):
         add("ps.kron", dict(perm=list(perm), rdims=[2, 2], cdims=[2, 3], entries="sym"), "permute_systems/kron-sym")
     for perm in [(1, 2, 3, 0), (3, 0, 2, 1), (2, 3, 0, 1)]:
